@@ -74,7 +74,11 @@ void vf_string_append(vf_string *s, const vf_string *o);                 /* oper
 void vf_string_pop_back(vf_string *s);                                   /* pop_back */
 int vf_string_compare(const vf_string *a, const vf_string *b);           /* compare(const string&) */
 int vf_string_compare_lit(const vf_string *a, const char *lit, size_t n); /* compare(const char*) */
-void vf_string_map_toupper(vf_string *s); /* std::transform(begin,end,begin,::toupper), "C" locale */
+void vf_string_map_toupper(vf_string *s);
+void vf_string_clear(vf_string *s);                                      /* clear */
+size_t vf_string_find_last_not_of_char(const vf_string *s, char c);      /* find_last_not_of(char) : npos if none */
+void vf_string_erase_from(vf_string *s, size_t pos);                     /* erase(pos) : out_of_range if pos > size */
+#define VF_NPOS ((size_t)-1) /* std::transform(begin,end,begin,::toupper), "C" locale */
 
 /* ---- std::stringstream (only operator<< of literals / unsigned long, and str()) */
 typedef struct vf_sstream {
@@ -153,6 +157,7 @@ void *vf_vec_alloc(size_t n, size_t elem);
   void vf_vec_##TAG##_assign(vf_vec_##TAG *v, const vf_vec_##TAG *o);                                                  \
   void vf_vec_##TAG##_clear(vf_vec_##TAG *v);                                                                          \
   void vf_vec_##TAG##_resize(vf_vec_##TAG *v, size_t n);                                                               \
+  void vf_vec_##TAG##_resize_fill(vf_vec_##TAG *v, size_t n, T x);                                                \
   void vf_vec_##TAG##_push_back(vf_vec_##TAG *v, T x);                                                                 \
   void vf_vec_##TAG##_insert_front(vf_vec_##TAG *v, T x);
 
@@ -166,6 +171,7 @@ void *vf_vec_alloc(size_t n, size_t elem);
   void vf_vec_##TAG##_assign(vf_vec_##TAG *v, const vf_vec_##TAG *o);                                                  \
   void vf_vec_##TAG##_clear(vf_vec_##TAG *v);                                                                          \
   void vf_vec_##TAG##_resize(vf_vec_##TAG *v, size_t n);                                                               \
+  void vf_vec_##TAG##_resize_fill(vf_vec_##TAG *v, size_t n, const T *x);                                                \
   void vf_vec_##TAG##_push_back(vf_vec_##TAG *v, const T *x);                                                          \
   void vf_vec_##TAG##_insert_front(vf_vec_##TAG *v, const T *x);
 
@@ -214,6 +220,21 @@ void *vf_vec_alloc(size_t n, size_t elem);
       nd[i] = v->data[i];                                                                                              \
     for (size_t i = v->size; i < n; ++i)                                                                               \
       nd[i] = 0;                                                                                                       \
+    free(v->data);                                                                                                     \
+    v->data = nd;                                                                                                      \
+    v->size = n;                                                                                                       \
+  }                                                                                                                    \
+  void vf_vec_##TAG##_resize_fill(vf_vec_##TAG *v, size_t n, T x)                                                      \
+  {                                                                                                                    \
+    if (n <= v->size) {                                                                                                \
+      v->size = n;                                                                                                     \
+      return;                                                                                                          \
+    }                                                                                                                  \
+    T *nd = (T *)vf_vec_alloc(n, sizeof(T));                                                                           \
+    for (size_t i = 0; i < v->size; ++i)                                                                               \
+      nd[i] = v->data[i];                                                                                              \
+    for (size_t i = v->size; i < n; ++i)                                                                               \
+      nd[i] = x;                                                                                                       \
     free(v->data);                                                                                                     \
     v->data = nd;                                                                                                      \
     v->size = n;                                                                                                       \
@@ -286,6 +307,21 @@ void *vf_vec_alloc(size_t n, size_t elem);
     T *nd = (T *)vf_vec_alloc(n, sizeof(T));                                                                           \
     for (size_t i = v->size; i < n; ++i)                                                                               \
       INIT(&nd[i]);                                                                                                    \
+    for (size_t i = 0; i < v->size; ++i)                                                                               \
+      RELOC(&nd[i], &v->data[i]);                                                                                      \
+    free(v->data);                                                                                                     \
+    v->data = nd;                                                                                                      \
+    v->size = n;                                                                                                       \
+  }                                                                                                                    \
+  void vf_vec_##TAG##_resize_fill(vf_vec_##TAG *v, size_t n, const T *x)                                               \
+  {                                                                                                                    \
+    if (n <= v->size) {                                                                                                \
+      v->size = n;                                                                                                     \
+      return;                                                                                                          \
+    }                                                                                                                  \
+    T *nd = (T *)vf_vec_alloc(n, sizeof(T));                                                                           \
+    for (size_t i = v->size; i < n; ++i)                                                                               \
+      COPY(&nd[i], x);                                                                                                 \
     for (size_t i = 0; i < v->size; ++i)                                                                               \
       RELOC(&nd[i], &v->data[i]);                                                                                      \
     free(v->data);                                                                                                     \
